@@ -46,7 +46,11 @@ def emit_readable(ctx, repo):
     ctx.call(R6B.r_flow_plain_agree, repo)
     ctx.call(R6B.r_option_immutable, repo, EMIT_CLASSES)
     ctx.call(RO.r_option_normalised, repo)
+    if not any(k[1] == 'r_emitter_grammar' for k in ctx._called):
+        from . import rules_emitgrammar as REG
+        ctx.call(REG.r_emitter_grammar, repo, max_len=6, slack=1)
     ctx.call(R6B.r_bang_escaped, repo)
+    ctx.call(R6B.r_first_document_state_once, repo)
     ctx.call(EFF.r_global_readonly, repo)
     ctx.call(R6B.r_instance_writes_class, repo, ['emitter', 'serializer', 'representer'])
     ctx.call(R6B.r_indent_writers, repo)
@@ -93,6 +97,7 @@ def reader_positions(ctx, repo):
     ctx.call(RX.r_mark_from_position, repo)
     ctx.call(R6B.r_str_input_verbatim, repo)
     ctx.call(R6B.r_printable_per_character, repo)
+    ctx.call(R6B.r_printable_one_test, repo)
     ctx.call(R6B.r_read_only_in_update_raw, repo)
     ctx.call(R6B.r_bom_prefix_fits, repo)
 
